@@ -658,8 +658,10 @@ func (mp *Pool) checkTxConflicts(tx *transaction.Transaction, feer Feer) ([]*tra
 // transaction and the function returns true. If no, the transaction tx is
 // considered to be invalid, the function returns false.
 func (mp *Pool) Verify(tx *transaction.Transaction, feer Feer) bool {
-	mp.lock.RLock()
-	defer mp.lock.RUnlock()
+	// checkTxConflicts caches the payer's balance in mp.fees: that is a write,
+	// the read lock is not enough (concurrent Verify calls would race on the map).
+	mp.lock.Lock()
+	defer mp.lock.Unlock()
 	_, err := mp.checkTxConflicts(tx, feer)
 	return err == nil
 }
